@@ -915,3 +915,92 @@ Definition c19_lrx_check (c : nat * option Z * Z * list (@xev carg) * list (bool
 Definition c19_lrx_show (c : nat * option Z * Z * list (@xev carg) * list (bool * option cres * list (ckey * Z))) :=
   let '(mx, valid, t0, h, obs) := c in
   map (fun x => (xo_hit (fst x), xo_res (fst x), content (snd x))) (snd (lrx_run ckey_of ckeqb cf mx valid (xl h) (lx_init t0))).
+
+(* ------------------------------------------------------------------ *)
+(* Round 5: SEVERAL decorated functions.  Every application of the decorator - bare, with options, *)
+(* or through one configured decorator object applied to several functions - makes a wrapper with  *)
+(* its own cache: the state of a program with n decorated functions is the list of their caches,    *)
+(* a call of function j steps cache j only, the clock is common.  Generic in the per-function call  *)
+(* step; the instances are sic_call and lru_call with function j's wrapped function.               *)
+(* ------------------------------------------------------------------ *)
+Section Multi.
+Variables S A O : Type.
+Variable call : nat -> S -> A -> S * O.     (* one call of decorated function j in its own cache state *)
+Variable tick : S -> N -> S.
+
+Inductive mev := MCall (j : nat) (a : A) | MTick (d : N).
+
+(* one function alone *)
+Fixpoint grun (j : nat) (s : S) (h : list (@event A)) : S * list O :=
+  match h with
+  | [] => (s, [])
+  | Tick d :: r => grun j (tick s d) r
+  | Call a :: r => let '(s1, o) := call j s a in
+                   let '(s2, os) := grun j s1 r in (s2, o :: os)
+  end.
+
+Fixpoint multi_run (ss : list S) (h : list mev) : list S * list (nat * O) :=
+  match h with
+  | [] => (ss, [])
+  | MTick d :: r => multi_run (map (fun s => tick s d) ss) r
+  | MCall j a :: r =>
+      match nth_error ss j with
+      | Some s => let '(s1, o) := call j s a in
+                  let '(ss2, os) := multi_run (upd ss j s1) r in (ss2, (j, o) :: os)
+      | None => multi_run ss r
+      end
+  end.
+
+(* what function j sees of a history: its own calls and every clock advance *)
+Fixpoint mproj (j : nat) (h : list mev) : list (@event A) :=
+  match h with
+  | [] => []
+  | MTick d :: r => Tick d :: mproj j r
+  | MCall i a :: r => if Nat.eqb i j then Call a :: mproj j r else mproj j r
+  end.
+Definition outs_of (j : nat) (os : list (nat * O)) : list O :=
+  map snd (filter (fun x => Nat.eqb (fst x) j) os).
+End Multi.
+
+Arguments MCall {A}. Arguments MTick {A}.
+Arguments grun {S A O}. Arguments multi_run {S A O}. Arguments mproj {A}. Arguments outs_of {O}.
+
+(* the instances: function j wraps [f j] *)
+Definition msic_call {A K R : Type} (key : A -> K) (keqb : K -> K -> bool) (f : nat -> A -> N -> R) (valid : option Z)
+  (j : nat) (s : @sic_st A R) (a : A) := sic_call key keqb (f j) valid s a.
+Definition mlru_call {A K R : Type} (key : A -> K) (keqb : K -> K -> bool) (f : nat -> A -> N -> R) (mx : nat) (valid : option Z)
+  (j : nat) (s : @lru_st K R) (a : A) :=
+  let r := lru_call key keqb (f j) mx valid s a in (fst r, (snd r, l_items (fst r))).
+
+(* --- correspondence: observed per call (function whose wrapped function produced the value, served from the
+   cache?, value[, content of the called function's cache]) --- *)
+Definition mcf (j : nat) (a : carg) (n : N) : cres := (a, n).
+
+Fixpoint mouts_eqb (m : list (nat * @outcome carg cres)) (obs : list (nat * bool * cres)) : bool :=
+  match m, obs with
+  | [], [] => true
+  | (j, o) :: r, (i, h, v) :: s => Nat.eqb j i && Bool.eqb (o_hit o) h && cres_eqb (o_res o) v && mouts_eqb r s
+  | _, _ => false
+  end.
+Definition c19_msic_check (c : option Z * Z * nat * list (@mev carg) * list (nat * bool * cres)) : bool :=
+  let '(valid, t0, n, h, obs) := c in
+  mouts_eqb (snd (multi_run (msic_call ckey_of ckeqb mcf valid) sic_tick (repeat (sic_init t0) n) h)) obs.
+Definition c19_msic_show (c : option Z * Z * nat * list (@mev carg) * list (nat * bool * cres)) :=
+  let '(valid, t0, n, h, obs) := c in
+  map (fun x => (fst x, o_hit (snd x), o_res (snd x))) (snd (multi_run (msic_call ckey_of ckeqb mcf valid) sic_tick (repeat (sic_init t0) n) h)).
+
+Fixpoint mlouts_eqb (m : list (nat * (@outcome carg cres * list (ckey * (Z * cres)))))
+                    (obs : list (nat * bool * cres * list (ckey * Z))) : bool :=
+  match m, obs with
+  | [], [] => true
+  | (j, (o, it)) :: r, (i, h, v, ks) :: s =>
+      Nat.eqb j i && Bool.eqb (o_hit o) h && cres_eqb (o_res o) v && list_eqb kz_eqb (content it) ks && mlouts_eqb r s
+  | _, _ => false
+  end.
+Definition c19_mlru_check (c : nat * option Z * Z * nat * list (@mev carg) * list (nat * bool * cres * list (ckey * Z))) : bool :=
+  let '(mx, valid, t0, n, h, obs) := c in
+  mlouts_eqb (snd (multi_run (mlru_call ckey_of ckeqb mcf mx valid) lru_tick (repeat (lru_init t0) n) h)) obs.
+Definition c19_mlru_show (c : nat * option Z * Z * nat * list (@mev carg) * list (nat * bool * cres * list (ckey * Z))) :=
+  let '(mx, valid, t0, n, h, obs) := c in
+  map (fun x => (fst x, o_hit (fst (snd x)), o_res (fst (snd x)), content (snd (snd x))))
+      (snd (multi_run (mlru_call ckey_of ckeqb mcf mx valid) lru_tick (repeat (lru_init t0) n) h)).
